@@ -125,6 +125,17 @@ pub broadcast axiom fn axiom_string_index_from_1(s: &String, r: core::ops::Range
 pub broadcast axiom fn axiom_string_index_from_1_val(s: &String, r: core::ops::RangeFrom<usize>, out: &str)
     requires r.start == 1, s@.len() > 0, is_ascii(s@[0]), #[trigger] idx_ens::<String, core::ops::RangeFrom<usize>>(s, r, out)
     ensures out@ == s@.skip(1);
+// `x[1..x.len() - 1]`: defined when x has at least two chars and its first and last char are one byte long
+pub broadcast axiom fn axiom_str_index_inner(s: &str, r: core::ops::Range<usize>)
+    requires r.start == 1, r.end == byte_len(s@) - 1, s@.len() >= 2, is_ascii(s@[0]), is_ascii(s@.last())
+    ensures #[trigger] idx_req::<str, core::ops::Range<usize>>(s, r);
+pub broadcast axiom fn axiom_str_index_inner_val(s: &str, r: core::ops::Range<usize>, out: &str)
+    requires r.start == 1, r.end == byte_len(s@) - 1, s@.len() >= 2, is_ascii(s@[0]), is_ascii(s@.last()), #[trigger] idx_ens::<str, core::ops::Range<usize>>(s, r, out)
+    ensures out@ == s@.subrange(1, s@.len() - 1);
+// every char takes at least one byte
+pub broadcast axiom fn axiom_byte_len_ge_len(s: Seq<char>)
+    ensures #[trigger] byte_len(s) >= s.len();
+pub broadcast group group_str_slice_inner { axiom_str_index_inner, axiom_str_index_inner_val, axiom_byte_len_ge_len }
 pub broadcast group group_str_slice_1 {
     axiom_string_index_to_1, axiom_string_index_to_1_val, axiom_string_index_from_1, axiom_string_index_from_1_val,
     axiom_str_index_to_1, axiom_str_index_to_1_val, axiom_str_index_from_1, axiom_str_index_from_1_val,
@@ -224,6 +235,11 @@ pub broadcast axiom fn axiom_str_byte_len(s: &str)
         vstd::string::StringSliceAdditionalSpecFns::spec_bytes(s).len() <= isize::MAX;
 pub assume_specification[ String::len ](s: &String) -> (r: usize)
     ensures r as nat == byte_len(s@), r <= isize::MAX;
+
+// ---- str::trim: leading and trailing Unicode whitespace removed (uninterpreted function of the text) ----
+pub uninterp spec fn trim_ws(s: Seq<char>) -> Seq<char>;
+pub assume_specification<'a>[ str::trim ](s: &'a str) -> (r: &'a str)
+    ensures r@ == trim_ws(s@);
 
 // ---- trim_matches(char) ----
 pub open spec fn trim_start_char(s: Seq<char>, c: char) -> Seq<char>
